@@ -214,3 +214,18 @@
   (concl (= (smod (+ a s) s) 0))
   (pattern (smod a s))
   (trigger smod))
+
+; membership in a list extended by one entry
+(lemma memb_prefix_step (pred)
+  (vars (d (Array Int Int)) (off Int) (m Int) (r Int) (x Int))
+  (hyp (>= m 1))
+  (concl (= (memb d off m r x) (or (memb d off (- m 1) r x) (= (normax (select d (+ off (- m 1))) r) x))))
+  (pattern (memb d off m r x))
+  (trigger memb))
+
+(lemma memb_prefix_empty
+  (vars (d (Array Int Int)) (off Int) (m Int) (r Int) (x Int))
+  (hyp (<= m 0))
+  (concl (not (memb d off m r x)))
+  (pattern (memb d off m r x))
+  (trigger memb))
